@@ -1,23 +1,43 @@
 import OmplModel.Model.Heap
+import OmplModel.Model.HeapFull
+import OmplModel.Model.HeapAudit
 import OmplModel.Driver.Common
-/-! Line-protocol driver for the heap model (`heap cmp=<less|greater|div4>`). -/
+/-! Line-protocol driver for the heap model (`heap cmp=<less|greater|div4>`).
+
+Two models run side by side on every line: `Heap` (handle search, swap-based sifting — what the order theorems are
+about) and `FHeap` (`Model/HeapFull.lean`: the class as coded, with every `->position` store and the callbacks).  The
+dump shows the `FHeap` array, `ps=` is the position audit of the `FHeap` table, `pf=` lists every element's position
+field and the callback events come from the `FHeap` log.  If the two models ever differed (they cannot for a
+contract-respecting script: `whole_class_refines_search`) the line carries `model-split` and so differs from the
+implementation's. -/
 namespace OmplModel.Driver.HeapDrv
 open OmplModel.Heap OmplModel.Driver
 
 structure St where
   lt : Int → Int → Bool
   heap : Heap Int
+  full : FHeap Int := {}
 
-def dump (s : Heap Int) : String :=
-  "n=" ++ toString s.arr.size ++
-    s.arr.foldl (fun acc e => acc ++ " " ++ toString e.h ++ ":" ++ toString e.key) "" ++ " ps=1"
+def showEv : Ev → String
+  | .ins h => s!"I{h}"
+  | .rem h => s!"R{h}"
+
+def dump (s : Heap Int) (f : FHeap Int) : String :=
+  "n=" ++ toString f.arr.size ++
+    f.arr.foldl (fun acc e => acc ++ " " ++ toString e.h ++ ":" ++ toString e.key) "" ++
+    (if posConsistent f.arr f.pos then " ps=1" else " ps=0") ++
+    " pf=" ++ ",".intercalate (f.positions.map toString) ++
+    (if s.arr.toList.map (fun e => (e.h, e.key)) == f.arr.toList.map (fun e => (e.h, e.key)) && s.next == f.next then ""
+     else " model-split")
 
 /-- keys are `value*1024 + serial` (non-negative); every comparator ignores the serial. -/
 def init (ts : List String) : Option St :=
   match ts with
-  | ["heap", "cmp=less"] => some ⟨fun a b => decide (a / 1024 < b / 1024), {}⟩
-  | ["heap", "cmp=greater"] => some ⟨fun a b => decide (a / 1024 > b / 1024), {}⟩
-  | ["heap", "cmp=div4"] => some ⟨fun a b => decide (a / 4096 < b / 4096), {}⟩
+  | ["heap", "cmp=less"] => some ⟨fun a b => decide (a / 1024 < b / 1024), {}, {}⟩
+  | ["heap", "cmp=greater"] => some ⟨fun a b => decide (a / 1024 > b / 1024), {}, {}⟩
+  | ["heap", "cmp=div4"] => some ⟨fun a b => decide (a / 4096 < b / 4096), {}, {}⟩
+  | ["heap", "cmp=tie"] => some ⟨fun _ _ => false, {}, {}⟩
+  | ["heap", "cmp=mod7"] => some ⟨fun a b => decide ((a / 1024) % 7 < (b / 1024) % 7), {}, {}⟩
   | _ => none
 
 def live (s : Heap Int) (h : Nat) : Bool := (findIdx s.arr h).isSome
@@ -33,39 +53,44 @@ def pairs? : List String → Option (List (Nat × Int))
 
 def step (st : St) (ts : List String) : St × String :=
   let s := st.heap
-  let fin (s' : Heap Int) (res : String) : St × String := ({ st with heap := s' }, res ++ " | " ++ dump s')
+  let f := st.full
+  /- `evs`: does this operation's result line carry the callbacks (`ins`, `insl`, `rm`)?  Otherwise any callback
+  fired is reported as `stray=` after the dump (the model never fires one there). -/
+  let fin (s' : Heap Int) (f' : FHeap Int) (res : String) (evs : Bool) : St × String :=
+    let fired := (f'.log.toList.drop f.log.size).map showEv
+    let r := if evs then res ++ " ev=" ++ ",".intercalate fired else res
+    let stray := if !evs && !fired.isEmpty then " stray=" ++ ",".intercalate fired else ""
+    ({ st with heap := s', full := f' }, r ++ " | " ++ dump s' f' ++ stray)
   match ts with
   | ["ins", k] =>
     match parseInt? k with
-    | some k => fin (s.insert st.lt k) s!"h={s.next} ev=I{s.next}"
+    | some k => fin (s.insert st.lt k) (f.insert st.lt k) s!"h={f.next}" true
     | none => (st, "bad-op")
   | "insl" :: rest =>
     match takeCounted rest with
     | some (xs, []) =>
       match parseInts? xs with
-      | some ks =>
-        let evs := (List.range ks.length).map (fun i => s!"I{s.next + i}")
-        fin (s.insertMany st.lt ks) ("ok ev=" ++ ",".intercalate evs)
+      | some ks => fin (s.insertMany st.lt ks) (f.insertVec st.lt ks) "ok" true
       | none => (st, "bad-op")
     | _ => (st, "bad-op")
   | ["rm", h] =>
     match parseNat? h with
-    | some h => if live s h then fin (s.remove st.lt h) s!"ok ev=R{h}" else fin s "dead"
+    | some h => if live s h then fin (s.remove st.lt h) (f.remove st.lt h) "ok" true else fin s f "dead" false
     | none => (st, "bad-op")
   | ["set", h, k] =>
     match parseNat? h, parseInt? k with
-    | some h, some k => if live s h then fin (s.setKey st.lt h k) "ok" else fin s "dead"
+    | some h, some k => if live s h then fin (s.setKey st.lt h k) (f.setKey st.lt h k) "ok" false else fin s f "dead" false
     | _, _ => (st, "bad-op")
-  | ["pop"] => if s.arr.size = 0 then fin s "empty" else fin (s.pop st.lt) "ok"
+  | ["pop"] => if s.arr.size = 0 then fin s f "empty" false else fin (s.pop st.lt) (f.pop st.lt) "ok" false
   | ["top"] =>
-    match s.top with
-    | some e => fin s s!"{e.h}:{e.key}"
-    | none => fin s "none"
+    match f.arr[0]? with
+    | some e => fin s f s!"{e.h}:{e.key}" false
+    | none => fin s f "none" false
   | "build" :: rest =>
     match takeCounted rest with
     | some (xs, []) =>
       match parseInts? xs with
-      | some ks => fin (s.buildFrom st.lt ks) "ok"
+      | some ks => fin (s.buildFrom st.lt ks) (f.buildFrom st.lt ks) "ok" false
       | none => (st, "bad-op")
     | _ => (st, "bad-op")
   | "poke" :: rest =>
@@ -73,17 +98,21 @@ def step (st : St) (ts : List String) : St × String :=
     | some (xs, []) =>
       match pairs? xs with
       | some chg =>
-        if chg.all (fun p => live s p.1) then fin (s.pokeRebuild st.lt chg) "ok" else fin s "dead"
+        if chg.all (fun p => live s p.1) then fin (s.pokeRebuild st.lt chg) (f.pokeRebuild st.lt chg) "ok" false
+        else fin s f "dead" false
       | none => (st, "bad-op")
     | _ => (st, "bad-op")
   | "sort" :: rest =>
     match takeCounted rest with
     | some (xs, []) =>
       match parseInts? xs with
-      | some ks => fin s (joinSp ("sorted" :: (s.sort st.lt ks).map toString))
+      | some ks =>
+        let a := s.sort st.lt ks
+        let b := f.sort st.lt ks
+        fin s f (joinSp (("sorted" :: b.map toString) ++ (if a == b then [] else ["model-split"]))) false
       | none => (st, "bad-op")
     | _ => (st, "bad-op")
-  | ["clear"] => fin s.clear "ok"
+  | ["clear"] => fin s.clear f.clear "ok" false
   | _ => (st, "bad-op")
 
 end OmplModel.Driver.HeapDrv
